@@ -42,6 +42,12 @@ pub struct Case {
     pub trains: Vec<TrainGen>,
     pub merge: Vec<u8>,
     pub faults: Vec<Fault>,
+    /// after the faults, rewrite the trailer of every end fragment so that it is the correct
+    /// CRC-32 of what the reference receiver holds for that id (announced total length,
+    /// protocol type, label, payloads actually received): only the length check is left
+    /// between a shortened / lengthened train and a delivery
+    #[serde(default)]
+    pub forge_crc: bool,
 }
 
 fn build_train(t: &TrainGen) -> Vec<Vec<u8>> {
@@ -172,6 +178,23 @@ fn apply_faults(seq: &mut Vec<Vec<u8>>, faults: &[Fault], st: &mut Stats) {
     }
 }
 
+fn forge_trailers(seq: &mut [Vec<u8>]) -> u32 {
+    let mut model = RefRx::new();
+    let mut n = 0;
+    for p in seq.iter_mut() {
+        if let Seen::End { trains, len, .. } = model.observe(p, &mand_lookup) {
+            if let Some(t) = trains.last() {
+                let crc = crate::oracle::refcrc::gse_crc(t.first.total_len.unwrap_or(0), t.first.ptype.unwrap_or(0), &t.first.label, &t.payload);
+                if len >= 4 && len <= p.len() {
+                    p[len - 4..len].copy_from_slice(&crc.to_be_bytes());
+                    n += 1;
+                }
+            }
+        }
+    }
+    n
+}
+
 /// Feed the packet sequence; judge every delivery by the first sentence of the property.
 pub fn feed_and_judge(slots: usize, storage: usize, seq: &[Vec<u8>], st: &mut Stats) -> Result<(u32, u32), String> {
     let mut dec = new_simple_dec(slots, 0, &vec![storage; slots + 2], TableManager::all());
@@ -271,6 +294,9 @@ fn check(c: &Case, st: &mut Stats) -> Result<(), String> {
         }
     }
     apply_faults(&mut seq, &c.faults, st);
+    if c.forge_crc && forge_trailers(&mut seq) > 0 {
+        st.class("forged-consistent-crc");
+    }
     let maxp = c.trains.iter().map(|t| t.pdu.len as i64).max().unwrap_or(0);
     let storage = (maxp + c.storage_delta as i64).max(0) as usize;
     let (delivered, ends_open) = feed_and_judge(c.slots as usize, storage, &seq, st)?;
@@ -303,8 +329,8 @@ fn strategy(t: Tier) -> BoxedStrategy<Case> {
         2 => (any::<u16>(), any::<u32>()).prop_map(|(pkt, v)| Fault::SetCrc { pkt, v }),
         1 => (any::<u16>(), 0u16..4096).prop_map(|(pkt, v)| Fault::SetGseLen { pkt, v }),
     ];
-    bx((1u8..=4, prop_oneof![3 => Just(0i16), 1 => 1i16..100, 1 => -40i16..0], prop::collection::vec(train, 1..=3), prop::collection::vec(0u8..3, 0..16), prop::collection::vec(fault, 0..=2))
-        .prop_map(|(slots, storage_delta, trains, merge, faults)| Case { slots, storage_delta, trains, merge, faults }))
+    bx((1u8..=4, prop_oneof![3 => Just(0i16), 1 => 1i16..100, 1 => -40i16..0], prop::collection::vec(train, 1..=3), prop::collection::vec(0u8..3, 0..16), prop::collection::vec(fault, 0..=2), prop_oneof![2 => Just(false), 1 => Just(true)])
+        .prop_map(|(slots, storage_delta, trains, merge, faults, forge_crc)| Case { slots, storage_delta, trains, merge, faults, forge_crc }))
 }
 
 // ---- exhaustive single-bit sweep over small trains ---------------------------------------------
@@ -367,7 +393,7 @@ pub fn property() -> Property {
                 fuzz_decode: Some(crate::fuzzdec::c03_case),
                 strategy,
                 check,
-                required_classes: &["delivered-some", "delivered-none", "no-fault", "train-from-encapsulator", "spliced-same-id", "fault-drop", "fault-dup", "fault-burst", "fault-truncate", "fault-crc", "fault-total-length"],
+                required_classes: &["delivered-some", "delivered-none", "no-fault", "train-from-encapsulator", "spliced-same-id", "fault-drop", "fault-dup", "fault-burst", "fault-truncate", "fault-crc", "fault-total-length", "forged-consistent-crc"],
             }),
             Box::new(EnumPart {
                 name: "every-single-bit-flip",
